@@ -2,6 +2,7 @@ mod codec;
 mod ctl;
 mod sys;
 mod j;
+mod page;
 mod util;
 mod vsign;
 
@@ -27,6 +28,11 @@ fn main() {
         ("replay", "C13") => { vsign::replay_graph(&a.rest[0], false); 0 }
         ("replay", "C12") => { vsign::replay_graph(&a.rest[0], true); 0 }
         ("replay", "C14") => { vsign::replay_bus_graph(&a.rest[0]); 0 }
+        ("record", "C06") => page::record_c06(&a),
+        ("record", "C07") => page::record_c07(&a),
+        ("record", "C19") => page::record_c19(&a),
+        ("replay", "C06") => { page::replay_c06(&a.rest[0]); 0 }
+        ("replay", "C07") => { page::replay_c07(&a.rest[0]); 0 }
         ("record", "C08") => sys::record_c08(&a),
         ("record", "C09") => ctl::record_c09(&a),
         ("record", "C10") => ctl::record_c10(&a),
